@@ -10,6 +10,7 @@ SPEC = {'id': 'C19',
  'modules': [_P, _T, _R],
  'theorems': [(_P, _N + t) for t in (
      'ceil8_spec', 'rounded_unique', 'log_counts_rounded', 'log_counts_ok',
+     'ceil8_mono', 'ceil8_idem', 'ceil8_zero_iff', 'ceil8_fixed_iff', 'ceil8_bucket',
      'rounded_serial', 'lts_solo_inc_is_serial', 'rounded_concurrent', 'rounded_concurrent_quiescent', 'repaired_mutex',
      'pinned_concurrent_overshoot', 'pinned_total12_published24', 'pinned_observable_undershoot',
      'unique_once_per_type', 'totals_are_sums', 'nat_sets_sound',
